@@ -362,6 +362,19 @@ func C14(ctx *core.Ctx) {
 				"transport allocated in this invocation", "a server handler builds its protocol on a transport that outlives the invocation (field/global): concurrent or successive messages share a buffer")
 		}
 	}
+	// handler closures run concurrently, once per message: they must not write storage captured from the enclosing function
+	hs := httpHandlers(r)
+	for h := range msgHandlers(r) {
+		hs = append(hs, h)
+	}
+	for _, h := range hs {
+		if h.Parent() == nil {
+			continue
+		}
+		bad := sharedMutableCaptures(h)
+		ctx.Check(len(bad) == 0, "C14.R5", ssax.Name(h)+" › handler closure writes no captured buffer", fnPos(r, h), "no slice/map/buffer captured from the enclosing function is written",
+			sprintf("the per-request handler writes storage captured from its enclosing function (%v): concurrent requests share it and corrupt each other's replies", bad))
+	}
 	// ---- R6 accept loop -----------------------------------------------------------
 	if acc := r.Fn("C14.R6", "(*FSimpleServer).accept"); acc != nil {
 		// every return is dominated by a test of the error returned by Process (err != nil or EOF type test)
